@@ -3,7 +3,7 @@ import collections
 
 from .base import Monitor, viol, common_stats, pos_diff, sample_of
 from ..e2e import run_case, TOL
-from ..gen import gen_program, gen_exact_case
+from ..gen import gen_program, gen_exact_case, exhaustive_case, exhaustive_total
 from ..harness import depth_in, border_eps, DEFAULT_AT
 
 ETOL = 1e-9
@@ -253,7 +253,16 @@ class MotionMonitor(Monitor):
         s = dict(g90e=False, enter=enter, exit=exit_)
         return s
 
+    exhaustive = None       # (quick maxlen, thorough maxlen): enumerate the retraction automaton's event sequences completely
+
     def gen_case(self, rnd, tier, k):
+        if self.exhaustive and k % 2 == 0:
+            maxlen = self.exhaustive[0 if tier == "quick" else 1]
+            e = (k // 2) * getattr(self, "nshards", 1) + getattr(self, "shard", 0)
+            case = exhaustive_case(e // 2, maxlen, firmware=bool(e % 2), variant=1)
+            if case is not None:
+                case["exhaustive_of"] = 2 * exhaustive_total(maxlen)
+                return case
         name, feats = self.pick_class(rnd)
         if name == "exact-border":
             return gen_exact_case(rnd)
@@ -280,6 +289,9 @@ class MotionMonitor(Monitor):
         tr = run_case(case)
         common_stats(tr, stats, sets)
         stats["class:" + str(case.get("cls"))] += 1
+        if case.get("cls") == "exhaustive-automaton":
+            sets["exhaustive_indices"].add((case["exhaustive_index"], bool(case.get("fw"))))
+            stats["exhaustive_of_%d" % case.get("exhaustive_of", 0)] += 1
         v = self.oracle(tr, stats, case)
         if tr.exc is not None:
             stats["exceptions_in_filter"] += 1
@@ -312,6 +324,7 @@ K3_WITNESS_C03 = dict(cls="witness-K3", settings={}, regions=[["rect", 360, 325,
 class C01(MotionMonitor):
     prop = "C01"
     quick_cases = 2500
+    exhaustive = (5, 7)
     rule = ("random programs (abstract tool path, then encoded) through the real handleGcode/handleAtCommand; the emitted "
             "stream is executed on reference printer A, the unfiltered one on B; a case is non-trivial when at least one "
             "reference episode opened AND closed and no violation was found; distinct = distinct digest of (settings, regions, steps)")
@@ -381,6 +394,7 @@ class ExtrusionMonitor(MotionMonitor):
 class C04(ExtrusionMonitor):
     prop = "C04"
     quick_cases = 3000
+    exhaustive = (5, 8)
     rule = ("programs in absolute extrusion mode with matched equal-length retract/recover cycles (E-only or firmware), G92 E "
             "anywhere, mm/inch; oracle compares E and pushed filament of printer A vs B; non-trivial = an episode closed "
             "while a recovery was owed (hooked lastRetraction.recoverExcluded at the closing step)")
@@ -407,6 +421,7 @@ class C04(ExtrusionMonitor):
 class C05(ExtrusionMonitor):
     prop = "C05"
     quick_cases = 3000
+    exhaustive = (5, 8)
     rule = ("as C04 with long alternations of enter/retract/recover/exit; oracle compares the physical retraction depth (high-water "
             "mark minus position) of A and B and G10/G11 parity/parameters; non-trivial = a retraction executed inside an episode "
             "and an owed recovery injected outside (a forwarded command preceded by generated commands)")
